@@ -146,7 +146,7 @@ _p('C02', ['r_emitorder', 'r_edges', 'r_visit', 'r_norec', 'r_segments', 'r_flow
    'kept and therefore indexed; no recursion is reachable from emit (R-NOREC).',
    not_decided='acceptance of the output by an independent validator; panics behind API misuse (ids of deleted items)')
 
-_p('C07', ['r_sweep', 'r_edges', 'r_entryty', 'r_segments'],
+_p('C07', ['r_sweep', 'r_edges', 'r_entryty', 'r_segments', 'r_arena'],
    'Precision of the GC: gc::run is evaluated with nothing inlined and must sweep every kind tracked by `Used` against the '
    'used set of that kind, imports by the kind they import; the helper `unused` must return exactly the complement; '
    'Used::new may root only the documented categories and each worklist step may retain only what the popped entity '
